@@ -70,6 +70,15 @@ def gen_support():
       tr.want(sp.__name__, n)
     else:
       tr.errors[f"{sp.__name__}.{n}"] = "function no longer exists in support.py"
+  # the launching kernel of contact_force (which world a request slot reads): translated task function
+  tr.kernels = {}
+  k = getattr(sp, "contact_force_kernel", None)
+  if k is None:
+    tr.errors[f"{sp.__name__}.contact_force_kernel"] = "kernel no longer exists in support.py"
+  else:
+    fi = tr.want_kernel(k)
+    if fi is not None:
+      tr.kernels["contact_force_kernel"] = fi
   _emit(tr, "support")
   _cache["support"] = tr
   return tr
